@@ -115,7 +115,7 @@ def oracle_cases(ctx, corr):
 
 
 def oracle(dump):
-    return evalcorr.oracle_c01(dump)
+    return evalcorr.oracle_c01(dump) or evalcorr.oracle_after_edits(dump)
 
 
 def classify(case, msg):
